@@ -30,7 +30,7 @@ MUX = (0x2000, 0)
 def bounds(tier):
     return {"lengths": "1..36 + 7k,7k+-1 up to 64" + (" + {888,889,890,1778,10000}" if tier == "thorough" else ""),
             "block_sizes": [1, 2, 127] if tier == "quick" else [1, 2, 3, 5, 127],
-            "max_drops": "1 (2 for n<=22)" if tier == "quick" else "2 for n<=64, 1 above"}
+            "max_drops": "1 (2 for n<=22)" if tier == "quick" else "3 for n<=15, 2 for n<=64, 1 above"}
 
 
 def cases(tier, seed):
@@ -46,7 +46,7 @@ def cases(tier, seed):
         for pi, plan in enumerate(plans):
             for ci, crc in enumerate(("granted", "refused", "not-requested")):
                 stall = ("silent", "ack")[(pi + ci + n) % 2]
-                D = (2 if n <= 22 else 1) if tier == "quick" else 2
+                D = (2 if n <= 22 else 1) if tier == "quick" else (3 if n <= 15 else 2)
                 if D == 2 and tier == "quick" and crc != "granted":
                     D = 1
                 out.append({"n": n, "plan": list(plan), "crc": crc, "stall": stall, "D": D, "seed": seed})
